@@ -65,6 +65,7 @@ pub fn json_str(s: &str) -> String {
 
 thread_local! {
     static LAST_PANIC: RefCell<Option<String>> = const { RefCell::new(None) };
+    static CATCHING: std::cell::Cell<bool> = const { std::cell::Cell::new(false) };
 }
 
 pub fn install_quiet_panic_hook() {
@@ -80,13 +81,19 @@ pub fn install_quiet_panic_hook() {
         } else {
             "?".into()
         };
+        if !CATCHING.with(|c| c.get()) {
+            eprintln!("harness panic at {loc}: {msg}");
+        }
         LAST_PANIC.with(|p| *p.borrow_mut() = Some(format!("{loc}: {msg}")));
     }));
 }
 
 /// Runs `f`, returning `Err(location: message)` if it panicked.
 pub fn catch<T>(f: impl FnOnce() -> T) -> Result<T, String> {
-    match std::panic::catch_unwind(std::panic::AssertUnwindSafe(f)) {
+    let prev = CATCHING.with(|c| c.replace(true));
+    let r = std::panic::catch_unwind(std::panic::AssertUnwindSafe(f));
+    CATCHING.with(|c| c.set(prev));
+    match r {
         Ok(v) => Ok(v),
         Err(_) => Err(LAST_PANIC
             .with(|p| p.borrow_mut().take())
